@@ -105,6 +105,8 @@ type actor struct {
 	readinessHealth bool
 	registerState   ring.InstanceState // basic: state returned by the register delegate
 	autoForget      time.Duration      // basic: 0 = no auto-forget delegate
+	slowShutdown    bool               // classic: the hand-over / flush on shutdown is a task the scheduler may delay
+	finalSleep      time.Duration
 
 	kv  *simkv.Client
 	gen *tokenGen
@@ -130,6 +132,7 @@ type actor struct {
 	handover        bool            // took part in a token hand-over (tokens come from another instance)
 	disturbedAt     time.Duration
 	kvWindowOpen    bool
+	transferring    bool
 	tokensTaken     bool // another instance claimed this instance's tokens (hand-over) and it has not published tokens since
 	readySeen       bool
 	inheritedTokens map[uint32]bool
@@ -147,6 +150,7 @@ type world struct {
 
 	faultsOn  bool
 	hbTimeout time.Duration
+	corruptAtStart string
 	checked   int // commits already examined by the commit oracle
 	forgotten map[string]time.Duration
 }
@@ -216,6 +220,8 @@ func (w *world) addActor(i int, kinds []lcKind, zones []string) *actor {
 	if s.Chance(0.3, "auto-forget") {
 		a.autoForget = 2 * w.hbTimeout
 	}
+	a.slowShutdown = s.Chance(0.3, "slow-shutdown")
+	a.finalSleep = sim.Pick(s, "final-sleep", 0, 0, 12*time.Second)
 	a.kv = w.store.NewClient(a.id)
 	a.gen = &tokenGen{w: w, actor: a.id, rnd: rand.New(rand.NewSource(int64(s.Seed) + int64(i)*7919)), gen: map[uint32]bool{}}
 	nAlpha := s.Range(0, len(tinyAlphabet), "alphabet")
@@ -247,7 +253,7 @@ func (w *world) build(a *actor) {
 		cfg.ObservePeriod = a.observe
 		cfg.JoinAfter = a.joinAfter
 		cfg.MinReadyDuration = 0
-		cfg.FinalSleep = 0
+		cfg.FinalSleep = a.finalSleep
 		cfg.TokensFilePath = a.tokensPath
 		cfg.Zone = a.zone
 		cfg.UnregisterOnShutdown = a.unregister
@@ -256,7 +262,11 @@ func (w *world) build(a *actor) {
 		cfg.Port = 9095
 		cfg.ID = a.id
 		cfg.RingTokenGenerator = a.gen
-		l, err := ring.NewLifecycler(cfg, nil, "sim", ringKey, false, w.logger, nil)
+		var ft ring.FlushTransferer
+		if a.slowShutdown {
+			ft = &slowTransferer{w: w, a: a}
+		}
+		l, err := ring.NewLifecycler(cfg, ft, "sim", ringKey, false, w.logger, nil)
 		if err != nil {
 			panic(err)
 		}
@@ -281,6 +291,21 @@ func (w *world) build(a *actor) {
 		}
 		a.basic, a.svc = l, l
 	}
+}
+
+// slowTransferer makes the shutdown work of a classic lifecycler a task of its own: the scheduler
+// decides how long it takes, and the instance must keep heartbeating meanwhile.
+type slowTransferer struct {
+	w *world
+	a *actor
+}
+
+func (t *slowTransferer) Flush() {}
+func (t *slowTransferer) TransferOut(context.Context) error {
+	t.a.transferring = true
+	t.w.s.Park("transfer-" + t.a.id)
+	t.a.transferring = false
+	return ring.ErrTransferDisabled
 }
 
 func (a *actor) state() ring.InstanceState {
@@ -507,4 +532,9 @@ func fmtDesc(d *ring.Desc) string {
 		b = append(b, id+"="+fmtInst(d.Ingesters[id], true))
 	}
 	return strings.Join(b, " ")
+}
+
+// isInFlight: the task is a CAS between its read and its conditional write.
+func isInFlight(task string) bool {
+	return strings.HasSuffix(task, ":f") || strings.Contains(task, ":f#")
 }
